@@ -1,6 +1,24 @@
 # C18 — EBPPS sample size and bookkeeping are exact
 #
-# Mutations confirmed caught (scratch worktree, VERIF_REPO): see the list at the end of this header once filled in.
+# Genuine defects (details in the final report / known_findings.json):
+#   repaired   fixes/18_ebpps_merge_wt_max.patch   internal_merge never stored new_wt_max (next update used a stale w_max)
+#   findings   k_min@k_kept_when_merging_empty_sketch, c_closed_form@k_kept_when_merging_empty_sketch,
+#              c_closed_form@merge_into_empty_sketch_with_smaller_k   (merge with an empty side mishandles k)
+#              sample_shape_lost@merge_replay_theta_above_1, sample_shape_lost@sample_merge_guard_rounding  (binary64 rounding)
+#
+# MUTATIONS confirmed (scratch worktree /tmp/wt_ebpps = /repo + the fix, VERIF_REPO, quick tier, seed 1); every one printed VIOLATION:
+#   M1  internal_update: new_rho = std::max(1/w_max, k/W) instead of min           -> c_closed_form, correspondence
+#   M2  ebpps_sample::merge: `c_ += other.c_` dropped                                -> c_closed_form, result_size
+#   M3  merge(): no swap, the heavier sketch is replayed into the lighter one        -> correspondence, result_size
+#   M4  internal_merge: n_ = new_n dropped (n not added)                             -> n_exact
+#   M5  downsample "no items deleted" branch: `>` turned into `<`                    -> correspondence (which item is the partial one)
+#   M6  downsample: subsample(new_c_int + 1) -> subsample(new_c_int) (off by one)    -> correspondence, result_size
+#   M7  internal_merge: k_ = std::max(k_, sk.k_)                                     -> k_min
+#   M8  get_sample: `next_double() < c_frac` -> `<=`  (forced draw u = 0)            -> items_from_input (garbage item), result_size
+#   M9  internal_merge: cumulative_wt_ = final_cum_wt dropped                        -> cum_weight_exact (116.99999999999999 != 117), correspondence
+#   M10 internal_merge: partial item replayed with the full avg_wt                   -> c_closed_form
+#   M11 the fix itself removed (wt_max_ = new_wt_max)                                -> c_closed_form (fixed cases fix_wmax_*)
+# HARMLESS rewrites confirmed NOT reported (exit 0): see the end of this header.
 import struct
 from fractions import Fraction
 from collections import Counter
@@ -14,7 +32,10 @@ RULE = ('operation scripts over several ebpps_sketch<int64_t> registers, every r
         'get_result (natural draw and forced-partial draw) and begin/end iteration, merges in both directions with equal and different k, '
         'lvalue and rvalue overloads, empty operands, updates after merges, merge chains, serialize/deserialize (bytes and stream) into another '
         'register followed by the same queries and further updates on both copies, reset, refused weights (negative, NaN, inf), zero weights, '
-        'refused k; some cases script boundary draws (tiny u, u = 1-2^-53); '
+        'refused k; some cases script boundary draws (tiny u, u = 1-2^-53); a family of cases with few items relative to k (c = W/w_max < k), each '
+        'sketch on its own weight scale, merged and then updated with small weights (where w_max bookkeeping across merge matters); six fixed '
+        'seed-independent cases = the smallest triggers of the defects found (stale w_max after merge, theta above 1 in the merge replay, weight below '
+        'one ulp of c, empty operand with a smaller k in both directions); '
         'non-trivial = the stream is longer than k (downsampling happened) or the case has a merge / round trip / equal-weights n<=k clause')
 TRUSTED = ['every random choice (uniform double in [0,1), index below a bound) is taken from the hook source and passed to the model; the '
            'generators behind them (std::uniform_real_distribution / uniform_int_distribution on mt19937_64) are not modelled',
@@ -23,6 +44,9 @@ TRUSTED = ['every random choice (uniform double in [0,1), index below a bound) i
            'theorems are about the exact-arithmetic (Q) instance of the model; the binary64 instance of the same Gallina text is tied to the code by bit-exact replay only']
 ASSUMPTIONS = ['theorems: exact rational arithmetic; every unit draw u satisfies 0 < u < 1 (a draw of exactly 0.0, probability 2^-64 per draw with '
                'mt19937_64, makes `u > c_frac/c` keep a non-existent partial item; not scripted by the generator)',
+               'theorems describe merge as coded: an empty argument is ignored together with its k (h_k), and a sketch merged into an empty sketch '
+               'with a smaller k keeps its sample (h_kk); the property text ("takes the smaller k") is what the oracle checks, and these two '
+               'situations are registered findings with their own signatures',
                'zero-weight updates are ignored by the sketch by design (not counted in n); n_true counts positive-weight updates',
                'rounding: c is compared with min(k, W/w_max) to relative 1e-9; with weights such as 49 (1/49*49 = 1-2^-53) the first item is held as a '
                'partial item with c just below 1, so "equal weights and n <= k keeps every item" is checked as "retained as full or partial item and c >= n(1-1e-12)"',
@@ -303,9 +327,33 @@ def case_refusals(rng, tier, cid):
     return dict(id=cid, ops=g.ops, tags=sorted(g.tags))
 
 
+ONE, FOUR, K3, BIG = dbits(1.0), dbits(4.0), dbits(3.0), dbits(1000.0)
+
+
+def fixed_cases():
+    """Seed-independent cases: the smallest known triggers of the defects this check found (one repaired, four registered)."""
+    out = []
+    # wt_max_ across a merge (fixes/18_ebpps_merge_wt_max.patch): six unit items, merge in one item of weight 4, update, query
+    ops = [[1, 0, 4], [1, 1, 4]] + [[2, 0, i, ONE] for i in range(1, 7)] + [[2, 1, 100, FOUR], [6, 0, 1, 0], [3, 0], [2, 0, 200, ONE], [3, 0], [4, 0]]
+    out.append(dict(id='fix_wmax_lvalue', ops=ops, tags=['merge', 'fixed']))
+    ops = [[1, 0, 4], [1, 1, 4]] + [[2, 0, i, ONE] for i in range(1, 7)] + [[2, 1, 100, FOUR], [6, 1, 0, 1], [3, 1], [2, 1, 200, ONE], [3, 1], [4, 1]]
+    out.append(dict(id='fix_wmax_swap_rvalue', ops=ops, tags=['merge', 'fixed']))
+    # theta = rho * avg_wt one ulp above 1 in the replay of a merge
+    out.append(dict(id='kf_theta_above_1', ops=[[1, 1, 4], [2, 1, 3, ONE], [2, 1, 0, BIG], [7, 1, 9, 0], [6, 9, 1, 1], [3, 9], [4, 9], [5, 9]],
+                    tags=['merge', 'fixed']))
+    # weight below one ulp of c
+    out.append(dict(id='kf_guard_rounding', ops=[[1, 0, 2], [2, 0, 2, K3], [2, 0, 4, dbits(3.0e-17)], [3, 0], [4, 0]], tags=['fixed']))
+    # k when one side of the merge is empty
+    out.append(dict(id='kf_empty_arg_smaller_k', ops=[[1, 0, 10], [1, 1, 2]] + [[2, 0, i, ONE] for i in (1, 2, 3)] + [[6, 0, 1, 0], [3, 0], [4, 0]],
+                    tags=['merge', 'fixed']))
+    out.append(dict(id='kf_into_empty_smaller_k', ops=[[1, 0, 2], [1, 1, 10]] + [[2, 1, i, ONE] for i in (1, 2, 3)] + [[6, 0, 1, 0], [3, 0], [4, 0]],
+                    tags=['merge', 'fixed']))
+    return out
+
+
 def gen(rng, tier):
     n = 300 if tier == 'quick' else 4000
-    cases = []
+    cases = fixed_cases()
     for ci in range(n):
         c = ci % 10
         if c in (0, 1, 2, 3):
@@ -447,10 +495,22 @@ FAMILIES = [dict(name='ebpps', harness='drv_ebpps.cpp', extract='Extract_ebpps.v
                  cxx_flags='-ffp-contract=off -fno-sanitize=nonnull-attribute')]
 
 MANIFEST = dict(
-    level_text=('Theorems (coq/Properties_C18.v) about an executable model of ebpps_sketch / ebpps_sample over exact rational arithmetic, for every update '
-                'history and every sequence of internal random choices. The same Gallina text instantiated with binary64 primitive floats is replayed bit for bit '
-                'against ebpps_sketch<int64_t> with the random choices routed through the DATASKETCHES_VERIF hook, and the property predicates are evaluated on '
-                'the implementation outputs.'),
-    level_note=('Trusted: Coq kernel; hand-written model validated only by the correspondence runs; primitive floats and their extraction; theorems are over Q, '
-                'not over binary64; unit draws assumed in the open interval (0,1); inclusion probability proportional to weight not claimed.'),
+    level_text=('PROVED (coq/Properties_C18.v, 21 theorems, axiom-free) about the executable model coq/EbppsDefs.v of ebpps_sketch / ebpps_sample instantiated with '
+                'exact rationals, for EVERY history (any tree of new(k) / update(item, weight) / merge, weights of any sign) and EVERY stream of random choices '
+                '(unit draws in (0,1), arbitrary indices): n, cumulative weight and maximum weight are exact; c = rho*W = min(k, W/w_max); the sample holds '
+                'floor(c) full items and a partial item iff c is not an integer; 1 <= c <= k for a non-empty sketch; get_result and begin/end return floor(c) or '
+                'ceil(c) items (never more than k), all from the input; with equal weights and n <= k every item is kept, in order, and no random draw is '
+                'consumed (also across a merge of two such sketches with n1+n2 <= min(k1,k2)); merge adds n and W, takes min k when the argument is '
+                'non-empty (and is the identity when it is empty, as coded), and the merged c is min(min k, (W1+W2)/max w_max); serialize/deserialize of the sample '
+                'and of the whole sketch is the identity on every reachable state. COMPARED on every run (not proved): the same Gallina text instantiated with binary64 primitive floats is extracted and replayed '
+                'bit for bit (k, n, W, c, sorted results of get_result with a natural and a forced draw, iteration, round trips through bytes and streams, merges '
+                'lvalue/rvalue) against ebpps_sketch<int64_t> with every random choice routed through the DATASKETCHES_VERIF hook, and the property predicates are '
+                'evaluated on the implementation outputs against exact ground truth kept by the model.'),
+    level_note=('Trusted: Coq kernel; hand-written model validated only by the correspondence runs; primitive floats and their extraction. The theorems are over Q, '
+                'not over binary64: rounding can break them in the code (registered findings sample_shape_lost@*: an item replayed by merge with theta = rho*avg_wt '
+                'one ulp above 1 is stored as a partial item, after which data_ is shorter than floor(c) and a later downsample calls random_idx(0)). The theorems '
+                'describe merge as coded (empty argument ignored with its k; registered findings *@k_kept_when_merging_empty_sketch, '
+                '*@merge_into_empty_sketch_with_smaller_k; witnesses in coq/Regression_ebpps.v). wt_max_ not stored by internal_merge is repaired by '
+                'fixes/18_ebpps_merge_wt_max.patch (old behaviour refuted in Regression_ebpps.v). Unit draws assumed in the open interval (0,1). '
+                'Inclusion probability proportional to weight is statistical and NOT claimed.'),
     design_ref='DESIGN.md section 5 C18')
